@@ -25,6 +25,7 @@ type planAttempt struct {
 	Suffix     string     // stripped or appended constant
 	NeedSuffix string     // guard: HasSuffix(id, c)
 	NeedNext   string     // guard: next byte(s) of the buffer equal this constant
+	NotAfter   string     // guard: the text after those next bytes does not start with this constant
 	Consume    int        // on success: bytes of the buffer consumed after the id
 	EmitPlus   bool       // on success: the id's suffix is rewritten to "+" in the buffer
 }
@@ -44,6 +45,9 @@ func (a planAttempt) String() string {
 	if a.NeedNext != "" {
 		s += fmt.Sprintf(", if next is %q", a.NeedNext)
 	}
+	if a.NotAfter != "" {
+		s += fmt.Sprintf(", unless %q follows it", a.NotAfter)
+	}
 	if a.Consume > 0 {
 		s += fmt.Sprintf(", consume %d", a.Consume)
 	}
@@ -57,9 +61,9 @@ type scanPlan struct {
 	Fn       *ssa.Function
 	Attempts []planAttempt
 	// parser side: what makes hasPlus true
-	PlusSuffix string // token value suffix that implies hasPlus
+	PlusSuffix                 string // token value suffix that implies hasPlus
 	LicenseRole, ExceptionRole string
-	Simplify string // suffix stripped before the family lookup
+	Simplify                   string // suffix stripped before the family lookup
 }
 
 // lookupLists: for a function f(string) *token built as a sequence of wrapper calls, the (table, role) pairs.
@@ -243,6 +247,9 @@ func extractPlan(p *Prog) (*scanPlan, error) {
 		// guards
 		for cf := range fb.facts[c.Block().Index] {
 			if !cf.pol {
+				if k, ok := notAfterGuard(fb, norm, cf.c); ok {
+					at.NotAfter = k
+				}
 				continue
 			}
 			switch g := cf.c.(type) {
@@ -274,6 +281,9 @@ func extractPlan(p *Prog) (*scanPlan, error) {
 						continue
 					}
 					if callee != nil && callee.Name() == "hasMore" {
+						continue
+					}
+					if _, ok := notAfterGuard(fb, norm, cf.c); ok && !cf.pol {
 						continue
 					}
 				case *ssa.BinOp:
@@ -404,6 +414,48 @@ func extractPlan(p *Prog) (*scanPlan, error) {
 	return plan, nil
 }
 
+// notAfterGuard recognises strings.HasPrefix(buffer[cursor+1:], "c") — used negatively: "the byte
+// after the next one does not start another c".
+func notAfterGuard(fb *fnBounds, norm *ssa.Function, c ssa.Value) (string, bool) {
+	call, ok := c.(*ssa.Call)
+	if !ok || call.Call.StaticCallee() == nil || call.Call.StaticCallee().String() != "strings.HasPrefix" {
+		return "", false
+	}
+	k, ok := constString(call.Call.Args[1])
+	if !ok {
+		return "", false
+	}
+	sl, ok := call.Call.Args[0].(*ssa.Slice)
+	if !ok || sl.Low == nil || sl.High != nil {
+		return "", false
+	}
+	// the sliced string is a field of the stream, the low bound is cursor + 1
+	ld, ok := sl.X.(*ssa.UnOp)
+	if !ok {
+		return "", false
+	}
+	fa, ok := ld.X.(*ssa.FieldAddr)
+	if !ok || fa.X != ssa.Value(norm.Params[0]) {
+		return "", false
+	}
+	bo, ok := sl.Low.(*ssa.BinOp)
+	if !ok || bo.Op != token.ADD {
+		return "", false
+	}
+	one, ok := bo.Y.(*ssa.Const)
+	if !ok || one.Value == nil || one.Value.ExactString() != "1" {
+		return "", false
+	}
+	il, ok := bo.X.(*ssa.UnOp)
+	if !ok {
+		return "", false
+	}
+	if ifa, ok := il.X.(*ssa.FieldAddr); !ok || ifa.X != ssa.Value(norm.Params[0]) {
+		return "", false
+	}
+	return k, true
+}
+
 // rewritesSuffixToPlus: the new buffer is old[0:…] + "+" [+ tail] on every path.
 func rewritesSuffixToPlus(v ssa.Value) bool {
 	switch t := v.(type) {
@@ -437,6 +489,7 @@ type planResult struct {
 	License string
 	HasPlus bool
 	Via     string
+	Rest    string // what is left of `next` for the operator reader
 }
 
 func inTable(tbl []string, s string) (string, bool) {
@@ -459,6 +512,9 @@ func (pl *scanPlan) eval(t *Tables, id, next string) planResult {
 		if a.NeedNext != "" && !strings.HasPrefix(next, a.NeedNext) {
 			continue
 		}
+		if a.NotAfter != "" && strings.HasPrefix(next, a.NeedNext) && strings.HasPrefix(next[len(a.NeedNext):], a.NotAfter) {
+			continue
+		}
 		arg := id
 		switch a.Transform {
 		case "strip":
@@ -475,7 +531,7 @@ func (pl *scanPlan) eval(t *Tables, id, next string) planResult {
 				if a.EmitPlus {
 					rest = "+" + strings.TrimPrefix(rest, "+")
 				}
-				r := planResult{OK: true, Role: l.Role, License: canon, Via: a.String()}
+				r := planResult{OK: true, Role: l.Role, License: canon, Via: a.String(), Rest: rest}
 				r.HasPlus = (pl.PlusSuffix != "" && strings.HasSuffix(canon, pl.PlusSuffix)) || strings.HasPrefix(rest, "+")
 				return r
 			}
@@ -487,7 +543,7 @@ func (pl *scanPlan) eval(t *Tables, id, next string) planResult {
 func init() {
 	register("C08", &propDef{
 		Level:   "other",
-		Explain: "The scanner's normalisation is a short decision list over list membership. It is not re-implemented: the lookup plan (ordered attempts: tables tried, argument transform, guard, effect on the buffer) is extracted from the SSA of normalizeLicense and its lookup helpers on every run, together with the parser's two sources of the plus flag, and interpreted over the extracted tables — a finite evaluation of constants. Q1 for every active id X the spellings X, X-only, X+, X-or-later all yield a license token, Q2 for every listed id the spellings of each pair denote interchangeable nodes (equal plus flag and equal id or same family and version group in the range table), Q3 the id simplification used for the family lookup strips exactly the suffix the plan rewrites. Interchangeability inside arbitrary expressions follows because expansion and matching see only nodes (C01 X5, C07 W1).",
+		Explain: "The scanner's normalisation is a short decision list over list membership. It is not re-implemented: the lookup plan (ordered attempts: tables tried, argument transform, guard, effect on the buffer) is extracted from the SSA of normalizeLicense and its lookup helpers on every run, together with the parser's two sources of the plus flag, and interpreted over the extracted tables — a finite evaluation of constants. Q1 for every active id X the spellings X, X-only, X+, X-or-later all yield a license token, Q2 for every listed id the spellings of each pair denote interchangeable nodes (equal plus flag and equal id or same family and version group in the range table), Q3 the id simplification used for the family lookup strips exactly the suffix the plan rewrites. X4: the verdict of Satisfies is ∃ alternative ∀ term ∃ allowed entry . matcher(term, entry) — terms are consulted only through the pair matcher, never through their position in the (spelling-sorted) lists — so node-level interchangeability lifts to the verdict; expansion sees only nodes (C01 X5).",
 		Run:     rulesC08,
 		Trusted: []string{"go/ssa lowering", "the matcher factors through (exact id, table position, plus flag, exception): C02"},
 	})
@@ -499,6 +555,9 @@ func rulesC08(p *Prog, r *Report) {
 	r.Rule("Q1", "necessary", 500, "for every active id X the spellings X, X-only, X+ and X-or-later are all valid license terms")
 	r.Rule("Q2", "necessary", 500, "for every listed id X, X and X-only (resp. X+ and X-or-later) denote interchangeable nodes whenever both are valid")
 	r.Rule("Q3", "necessary", 1, "the family lookup strips exactly the suffix the scanner treats as '+'")
+	// the verdict consults terms only through the pair matcher (no position in a spelling-sorted list,
+	// no state carried between terms): otherwise node-level interchangeability would not lift to Satisfies
+	ruleX4(p, r, "X4")
 	t, err := p.LoadTables()
 	if err != nil {
 		r.Unknown("A1", "tables", "-", err.Error())
